@@ -179,19 +179,20 @@ def rule_arity(ctx):
     rr.instances += 1
     ok = False
     pops_outside = []
-    for n in own_nodes(app):
+    from ..util import nodes_with_helpers
+    for g_, n in nodes_with_helpers(ctx, app):
         if isinstance(n, ast.Try):
             has_pop = any(isinstance(c, ast.Call) and call_name(c) == 'pop'
                           for s in n.body for c in ast.walk(s))
             if not has_pop:
                 continue
             for h in n.handlers:
-                hc = ex.handler_classes(app, h)
+                hc = ex.handler_classes(g_, h)
                 if any(c.name in ('IndexError', 'LookupError', 'Exception')
                        for c in hc):
                     raises = [s for s in h.body if isinstance(s, ast.Raise)]
                     if raises and raises[-1].exc is not None:
-                        c = ex.exc_of_expr(app, raises[-1].exc)
+                        c = ex.exc_of_expr(g_, raises[-1].exc)
                         if c is not None and ex.is_sub(c, fe):
                             ok = True
     if ok:
